@@ -190,6 +190,38 @@ func (c *Ctx) ruleDocURL(prefixVals map[string]bool) {
 			}
 		}
 	})
+	// table-driven form: for _, e := range <package-level table> { if HasPrefix(code, e.<prefix>) { return base + e.<page> } }
+	allInstrs(fn, func(b *ssa.BasicBlock, ins ssa.Instruction) {
+		r, ok := ins.(*ssa.Return)
+		if !ok || len(r.Results) != 1 {
+			return
+		}
+		for _, l := range P.BlockGuards(b) {
+			call := P.litCallTo(l, "strings.HasPrefix")
+			if call == nil || !l.Pos || call.Call.Args[0] != fn.Params[0] {
+				continue
+			}
+			pd := P.Desc(call.Call.Args[1])
+			m := regexp.MustCompile(`^field\((elem\(global\(codes\.([A-Za-z0-9_]+)\)\))\.[^)]*\.([A-Za-z0-9_]+)\)$`).FindStringSubmatch(pd)
+			if m == nil {
+				continue
+			}
+			elem, table, prefixField := m[1], m[2], m[3]
+			m2 := regexp.MustCompile(`field\(`+regexp.QuoteMeta(elem)+`\.[^)]*\.([A-Za-z0-9_]+)\)`).FindAllStringSubmatch(P.Desc(r.Results[0]), -1)
+			pageField := ""
+			for _, x := range m2 {
+				if x[1] != prefixField {
+					pageField = x[1]
+				}
+			}
+			if pageField == "" {
+				continue
+			}
+			for p, page := range c.stringTable(table, prefixField, pageField) {
+				covered[p] = strings.TrimSuffix(page, ".html")
+			}
+		}
+	})
 	var ps []string
 	for p := range prefixVals {
 		ps = append(ps, p)
@@ -214,6 +246,79 @@ func (c *Ctx) ruleDocURL(prefixVals map[string]bool) {
 			}
 		}
 	}
+}
+
+// stringTable reads a package-level slice-of-struct literal of package codes: keyField value -> valField value (string
+// constants only).
+func (c *Ctx) stringTable(table, keyField, valField string) map[string]string {
+	out := map[string]string{}
+	cp := c.P.Pkg("codes")
+	if cp == nil {
+		return out
+	}
+	strOf := func(e ast.Expr) (string, bool) {
+		if tv, ok := cp.TypesInfo.Types[e]; ok && tv.Value != nil && tv.Value.Kind() == constant.String {
+			return constant.StringVal(tv.Value), true
+		}
+		return "", false
+	}
+	for _, f := range cp.Syntax {
+		for _, d := range f.Decls {
+			gd, ok := d.(*ast.GenDecl)
+			if !ok {
+				continue
+			}
+			for _, sp := range gd.Specs {
+				vs, ok := sp.(*ast.ValueSpec)
+				if !ok {
+					continue
+				}
+				for i, nm := range vs.Names {
+					if nm.Name != table || i >= len(vs.Values) {
+						continue
+					}
+					lit, ok := vs.Values[i].(*ast.CompositeLit)
+					if !ok {
+						continue
+					}
+					sl, ok := cp.TypesInfo.TypeOf(lit).Underlying().(*types.Slice)
+					if !ok {
+						continue
+					}
+					st, ok := sl.Elem().Underlying().(*types.Struct)
+					if !ok {
+						continue
+					}
+					for _, el := range lit.Elts {
+						cl, ok := el.(*ast.CompositeLit)
+						if !ok {
+							continue
+						}
+						vals := map[string]string{}
+						for j, fe := range cl.Elts {
+							if kv, isKV := fe.(*ast.KeyValueExpr); isKV {
+								if id, isID := kv.Key.(*ast.Ident); isID {
+									if v, ok := strOf(kv.Value); ok {
+										vals[id.Name] = v
+									}
+								}
+							} else if j < st.NumFields() {
+								if v, ok := strOf(fe); ok {
+									vals[st.Field(j).Name()] = v
+								}
+							}
+						}
+						if k, ok := vals[keyField]; ok {
+							if v, ok := vals[valField]; ok {
+								out[k] = v
+							}
+						}
+					}
+				}
+			}
+		}
+	}
+	return out
 }
 
 // ruleMainExit: main ends in multichecker.Main(AllAnalyzers()...), AllAnalyzers returns every analyzer of the
